@@ -80,7 +80,10 @@ func chunkReplay(args []string) error {
 	defer os.RemoveAll(dir)
 	units := []int{1, 7, 1024}
 	if thorough() {
-		units = append(units, 700*1024) // crosses the chunker's internal 1 MiB read buffer
+		// several reads of the chunker's internal 1 MiB buffer per chunk.  The unit is that buffer's size: the
+		// chunker fills a chunk by whole buffer reads until it has AT LEAST the requested size, so with any other
+		// large unit its chunks are longer than requested (not part of the property) and have no length in units
+		units = append(units, 1<<20)
 	}
 	rng := newRand(28)
 	n, nontrivial := 0, 0
